@@ -80,6 +80,12 @@ ASSUMES = [
 OUTSIDE = [
     "payload depth > 2 / width > 2, atoms outside the pools", "PickleSerializer", "classes defined inside functions",
     "exceptions whose class cannot be imported (documented fallback to Exception)",
+    "ob_payload_keys: a BARE dict payload (not inside an event) carrying a truthy '__is_pydantic' / '__is_component' key AND "
+    "a truthy 'qualified_name' — JsonSerializer.deserialize_value re-interprets it as a tagged model (in-band tagging). "
+    "C18's statement quantifies over EVENTS; inside an event (dynamic field, typed field, result) such a dict is never "
+    "re-interpreted, which ob_event_marker_payload decides over the same key pool. The bare-payload collision is a "
+    "state-store matter (DictState values go through JsonSerializer.serialize one by one): checked and recorded under C19 "
+    "(KF-C19-1), demo findings_demo/c19_marker_key_dict_bricks_sqlite_state.py",
 ]
 
 _MODS = ("serializers", "events", "envelope", "ticks", "results")
@@ -199,6 +205,7 @@ def ob_payload_keys(k1: int, k2: int, v1: int, v2: int, nest: int) -> bool:
     """
     pre: 0 <= k1 < B(NKS, len(ALLKEYS)) and 0 <= k2 < B(NKS, NKQ) and (k1 <= k2 or k1 >= NKQ)
     pre: 0 <= v1 < B(3, 4) and 0 <= v2 < B(3, 4) and 0 <= nest <= B(1, 2)
+    pre: not marker_pair(k1, k2, v1, v2)
     post: _
     """
     d = {pickb(ALLKEYS, k1): pickb(KV, v1)}
